@@ -120,6 +120,24 @@ def trace_tokens(sched: list[str]):
     return g, toks, ok_ids
 
 
+ENV_FAILURES = ("Cannot connect to build worker", "Failed to establish connection with worker")
+
+
+def run_parallel(root: str, cache: str, args: list, **kw) -> dict:
+    """One parallel build.  A worker process that does not come up in time on a loaded machine ('Cannot connect to
+    build worker(s)') says nothing about the property: such a run is repeated (fresh cache directory) up to twice and
+    then marked `env_failure`."""
+    r = {}
+    for attempt in range(3):
+        r = B.run_mypy(root, cache, args, **kw)
+        err = (r.get("stderr") or "") + (r.get("stdout") or "")
+        if r.get("status") in (0, 1, 2) and not r.get("timeout") or not any(m in err for m in ENV_FAILURES):
+            return r
+        shutil.rmtree(cache, ignore_errors=True)
+    r["env_failure"] = True
+    return r
+
+
 FLAG_SETS = [[], ["--warn-unused-ignores"], ["--warn-unused-ignores", "--strict-equality", "--warn-unreachable"], ["--show-error-context"]]
 
 
@@ -139,13 +157,17 @@ def one(ctx: Ctx, name: str, w0, w1, nworkers: int, sseed: int) -> dict:
     files0 = {os.path.relpath(os.path.join(dp, fn), root): open(os.path.join(dp, fn)).read()
               for dp, _, fs in os.walk(root) for fn in fs}
     wlog = os.path.join(base, "worker-ops.log")
-    par = B.run_mypy(root, os.path.join(base, "cpar"), ["-n", str(nworkers)] + flags, sched_log=True, sched_seed=sseed, scratch=base,
-                     env_extra={"VERIF_WORKER_OPLOG": wlog})
+    par = run_parallel(root, os.path.join(base, "cpar"), ["-n", str(nworkers)] + flags, sched_log=True, sched_seed=sseed, scratch=base,
+                       env_extra={"VERIF_WORKER_OPLOG": wlog})
     seq = B.run_mypy(root, os.path.join(base, "cseq"), SEQ + flags, scratch=base)
     rec = {"name": name, "n": nworkers, "sseed": sseed, "flags": flags, "files0": files0, "par": par, "seq": seq,
            "worker_ops": open(wlog).read().splitlines() if os.path.exists(wlog) else []}
     if seq.get("timeout") or seq.get("status") not in (0, 1, 2):
         raise ToolFailure(f"sequential run failed: {seq.get('status')} {seq.get('stderr', '')[-1200:]}")
+    if par.get("env_failure"):
+        rec["env_failure"] = True
+        shutil.rmtree(base, ignore_errors=True)
+        return rec
     if par.get("timeout") or par.get("status") not in (0, 1, 2):
         rec["par_crashed"] = (par.get("stderr") or "")[-1500:] or "timeout"
         shutil.rmtree(base, ignore_errors=True)
@@ -160,6 +182,10 @@ def one(ctx: Ctx, name: str, w0, w1, nworkers: int, sseed: int) -> dict:
                          for dp, _, fs in os.walk(root) for fn in fs}
         rec["par2"] = B.run_mypy(root, os.path.join(base, "cpar"), ["-n", str(nworkers)] + flags, sched_log=True, sched_seed=sseed + 1, scratch=base,
                                  env_extra=slow)
+        e2 = (rec["par2"].get("stderr") or "") + (rec["par2"].get("stdout") or "")
+        if rec["par2"].get("status") not in (0, 1, 2) and any(m in e2 for m in ENV_FAILURES):
+            rec["par2"] = None          # environment, not a verdict (see run_parallel)
+            rec["env_failure_par2"] = True
         rec["cold2"] = B.run_mypy(root, os.path.join(base, "ccold2"), SEQ + flags, scratch=base)
         # … and back to the first version: whatever the parallel builds recorded (dependency hashes!) must
         # not make a later warm run — sequential or parallel — trust stale entries
@@ -247,8 +273,16 @@ def main(ctx: Ctx) -> None:
             if not ok:
                 proto_breaks.append({"program": rec["name"], "n": rec["n"], "module": mod, "ops": sig})
     ctx.coverage["worker_store_protocol_breaks"] = len(proto_breaks)
+    nskip = sum(1 for r in recs if r.get("env_failure"))
+    if recs and nskip * 4 > len(recs):
+        raise ToolFailure(f"{nskip} of {len(recs)} parallel builds could not start their workers (machine overloaded): no verdict")
     found = False
     for rec in recs:
+        if rec.get("env_failure"):
+            ctx.count("parallel_runs_skipped_worker_startup")
+            continue
+        if rec.get("env_failure_par2"):
+            ctx.count("parallel_runs_skipped_worker_startup")
         if rec.get("par_crashed"):
             ctx.case((rec["name"], rec["n"], rec["sseed"]))
             if not found:
@@ -261,7 +295,7 @@ def main(ctx: Ctx) -> None:
         ctx.dist("workers", str(rec["n"]))
         cmp_pairs = [("parallel vs sequential (cold)", rec["par"], rec["seq"], rec["files0"]),
                      ("sequential warm rerun on the parallel build's cache vs sequential cold", rec["warm_same"], rec["seq"], rec["files0"])]
-        if "par2" in rec:
+        if rec.get("par2"):
             cmp_pairs.append(("parallel warm run after an edit vs sequential cold", rec["par2"], rec["cold2"], rec["files1"]))
         if "back_seq" in rec:
             cmp_pairs.append(("warm run after reverting the edit (cache written by two parallel builds) vs cold", rec["back_seq"], rec["back_cold"], rec["files0"]))
